@@ -97,4 +97,35 @@ def WFile.ok (f : WFile) : Bool := f.objs.all (wobjOK f.history)
 def secListsB (bound : Nat) (s : Section) (ents : List (Nat × Entry)) : Bool :=
   (List.range bound).all (fun n => s.getPos n == lookupNat ents n)
 
+/-! ### The trailer chain of a file, computed (executable hypothesis of `C02_chain`) -/
+
+/-- Follow the chain from an optional position: every revision a plain section or a hybrid pair whose
+stream carries neither `/Prev` nor `/XRefStm`.  `none` when the file has another shape. -/
+def chainOf (ph : Phys) : Nat → Option Nat → Option (List Nat × List (Section × Trailer))
+  | _, none => some ([], [])
+  | 0, some _ => none
+  | fuel + 1, some p =>
+    match lookupNat ph.secs p with
+    | none => none
+    | some d =>
+      match loadSection ph d with
+      | .error _ => none
+      | .ok (s, tr) =>
+        match tr.xrefstm with
+        | none => (chainOf ph fuel tr.prev).map (fun r => (p :: r.1, (s, tr) :: r.2))
+        | some x =>
+          match lookupNat ph.secs x with
+          | none => none
+          | some dx =>
+            match loadSection ph dx with
+            | .error _ => none
+            | .ok (sx, trx) =>
+              if trx.xrefstm.isNone && trx.prev.isNone then
+                (chainOf ph fuel tr.prev).map (fun r => (p :: x :: r.1, (s, tr) :: (sx, trx) :: r.2))
+              else none
+
+def nodupNat : List Nat → Bool
+  | [] => true
+  | a :: r => !r.contains a && nodupNat r
+
 end PdfVerif.Xref
